@@ -1,0 +1,5 @@
+//go:build !verif
+
+package v1
+
+func verifPoint(string, any) {}
